@@ -446,6 +446,10 @@ class World:
         if alternate:
             pipeline = ["tensor", "make_rdm", "make_rdm", "propagate_rdm", "propagate_rdm", "propagate_rdm"]
             alt_th = rng.choice(ths + [9, 9, 3, 5])
+        # ... or with one hierarchy, a free-hierarchy run between ordinary ones and a second propagator attached to it
+        heom_pipe = (not pipeline) and rng.random() < 0.45
+        if heom_pipe:
+            pipeline = ["make_heom", "propagate_heom", "propagate_heom", "make_heom", "propagate_heom"]
         for step in range(n + len(pipeline)):
             k = pipeline[step] if step < len(pipeline) else rng.choice(kinds)
             op = {"op": k, "sys": 0 if step < len(pipeline) else rng.randrange(nsys), "a": rng.randrange(16), "b": rng.randrange(16)}
@@ -491,11 +495,15 @@ class World:
                 op["nt"] = rng.choice([20, 40])
                 op["norwa"] = rng.random() < 0.2
                 op["share"] = rng.random() < 0.4
+                if heom_pipe and step < len(pipeline):
+                    op["norwa"], op["share"], op["depth"] = False, step == 3, rng.choice([1, 2])
             elif k == "propagate_heom":
                 op["state"] = {"kind": rng.choice(["site", "coh"]), "k": rng.randrange(4)}
                 op["new_state"] = rng.random() < 0.4
                 op["free"] = rng.random() < 0.3
                 op["report"] = rng.random() < 0.2
+                if heom_pipe and step < len(pipeline):
+                    op["free"], op["a"] = (step == 1), 0
             elif k == "eso":
                 op["nt"] = rng.choice([5, 10])
                 op["dense"] = rng.choice([1, 2])
